@@ -27,4 +27,21 @@ def run(name=""):
             return {"confirmed": True, "input": {"statement": stmt},
                     "observed": f"{sorted(missing)} are read by the "
                     f"statement but not reported as read ({sorted(read)})"}
+    # options given to the caller's collector must reach the collector of an
+    # assignment's target: with COLLECT-ARRAY-SHAPE-READS an array that is
+    # only inquired about in the target's index expression is read
+    code = ("subroutine s()\n real :: a(4), b(4)\n"
+            " a(size(b)) = 1.0\nend subroutine s\n")
+    rt = FortranReader().psyir_from_source(code).walk(Routine)[0]
+    vai = VariablesAccessInfo(rt.children,
+                              options={"COLLECT-ARRAY-SHAPE-READS": True})
+    names = {str(s) for s in vai.all_signatures}
+    if "b" not in names:
+        return {"confirmed": True,
+                "input": {"statement": "a(size(b)) = 1.0",
+                          "options": {"COLLECT-ARRAY-SHAPE-READS": True}},
+                "observed": "with COLLECT-ARRAY-SHAPE-READS the array b "
+                "inquired about in the index of the assigned element is "
+                f"not reported ({sorted(names)}): the options of the "
+                "caller's collector did not reach the target's collector"}
     return {"confirmed": False}
